@@ -88,9 +88,25 @@ Definition adata_eqb (a b : adata) : bool :=
 Definition acct_eqb (a b : acct) : bool :=
   N.eqb (lamports a) (lamports b) && key_eqb (owner a) (owner b) && N.eqb (alen a) (alen b) && adata_eqb (data a) (data b).
 
-(* one observed step: the operation, whether the implementation accepted it, and the accounts it left behind *)
+(* one observed step: the operation, whether the implementation accepted it, and the accounts it left behind.
+   `Same` abbreviates "exactly as last observed" (the harness remembers what it printed; the checker keeps the same view). *)
+Inductive oacct := Same | Now (a : acct).
+Definition robs := (op * bool * list (key * oacct))%type.
 Definition obs := (op * bool * list (key * acct))%type.
 Inductive diff := DiffOutcome (model_ok : bool) | DiffAcct (k : key) (model : acct).
+
+Definition view := kmap acct.
+Definition vget (V : view) (k : key) : acct := match lookup k V with Some a => a | None => empty_acct end.
+Fixpoint vupd (V : view) (post : list (key * acct)) : view :=
+  match post with [] => V | (k, a) :: tl => vupd (upd k a V) tl end.
+(* expand the abbreviations against the view *)
+Definition expand1 (V : view) (p : key * oacct) : key * acct :=
+  match snd p with Same => (fst p, vget V (fst p)) | Now a => (fst p, a) end.
+Fixpoint expand (V : view) (tr : list robs) : list obs :=
+  match tr with
+  | [] => []
+  | (o, ok, post) :: tl => let post' := map (expand1 V) post in (o, ok, post') :: expand (vupd V post') tl
+  end.
 
 Fixpoint first_acct_diff (W : world) (l : list (key * acct)) : option diff :=
   match l with
@@ -108,7 +124,8 @@ Fixpoint check_trace (W : world) (tr : list obs) (i : N) : option (N * diff) :=
       | None => check_trace W' tl (i + 1)
       end
   end.
-Definition corr_trace (tr : list obs) : option (N * diff) := check_trace world0 tr 0.
+Definition corr_obs (tr : list obs) : option (N * diff) := check_trace world0 tr 0.
+Definition corr_trace (tr : list robs) : option (N * diff) := corr_obs (expand [] tr).
 (* model run alone (for debugging and for monitors that need the model's states) *)
 Fixpoint run_ops (W : world) (ops : list op) : list bool :=
   match ops with [] => [] | o :: tl => let '(W', ok) := exec_op W o in ok :: run_ops W' tl end.
